@@ -53,6 +53,9 @@ class VirtualTimeLoop(asyncio.SelectorEventLoop):
         return self._vnow
 
 
+SPINS = [0]  # busy loops reported by run_virtual() in this process
+
+
 class _Spinning(BaseException):
     """The code under test keeps the event loop busy without ever waiting for anything (virtual time stands still)."""
 
@@ -83,10 +86,12 @@ def run_virtual(coro_fn: Callable[[], Awaitable[Any]], max_virtual: float = 1e7,
         res = _run_virtual(coro_fn, max_virtual)
         live["on"] = False
         if res[0] == "exc" and isinstance(res[1], _Spinning):  # the alarm went off inside a task, which handed it on as its result
+            SPINS[0] += 1
             return "overrun", None, res[2]
         return res
     except _Spinning:
         live["on"] = False
+        SPINS[0] += 1
         try:
             asyncio.set_event_loop(None)
         except Exception:  # noqa: BLE001
